@@ -62,6 +62,13 @@ func verif_ReadMsg(c io.Reader) {
 //
 //verif:noblock (*~/pkg/msg.Dispatcher).Send props=C16
 
+// The dispatcher's done channel has one owner: the read loop closes it, once,
+// when the connection can no longer be read, and returns. Nobody else closes it
+// (a second closer - say the send loop on a write error - meets the first one
+// sooner or later: "close of closed channel" takes the whole process down).
+//
+//verif:closed-only-by H.pkg.msg.Dispatcher.doneCh (*~/pkg/msg.Dispatcher).readLoop props=C17,C16
+
 // ReadMsgInto ("without reading past the frame"): the registered codec reads
 // from the caller's reader itself - no buffering layer that would swallow the
 // bytes that follow the frame (the payload after StartWorkConn, the next
